@@ -22,6 +22,7 @@ let rec parse (t : string list) : exp * string list =
   | "handler" :: t :: r -> let (a, r) = parse r in let (b, r) = parse r in (WithHandler (nat t, a, b), r)
   | "raise" :: r -> let (a, r) = parse r in (Raise a, r)
   | "raisec" :: r -> let (a, r) = parse r in (RaiseC a, r)
+  | "windp" :: i :: p :: r -> let (a, r) = parse r in (DynWindP (nat i, nat p, a), r)
   | "ccall" :: r -> let (a, r) = parse r in (CCall a, r)
   | "guard" :: o :: t :: r ->
      let only = if o = "_" then None else Some (nat o) in
